@@ -132,6 +132,17 @@ def nested():
     d.append("Blobs ::= SEQUENCE { o OCTET STRING (SIZE(0..4)), b BIT STRING (SIZE(0..12)), ox OCTET STRING (SIZE(2,...)) OPTIONAL, bx BIT STRING OPTIONAL }")
     d.append("Nums ::= SEQUENCE { a INTEGER (-5..5), b INTEGER OPTIONAL, c INTEGER (0..255,...) DEFAULT 7, d INTEGER (5..MAX), e INTEGER (0..65535) }")
     d.append("DefX ::= SEQUENCE { a BOOLEAN, ..., b INTEGER (0..7) DEFAULT 3, c BOOLEAN DEFAULT TRUE, d IA5String (SIZE(0..3)) DEFAULT \"ab\" }")
+    # a mandatory root component of every kind in front of the extension marker (each read_*/write_* counts
+    # itself as a component of the enclosing extensible SEQUENCE / SET)
+    root_kinds = ["BOOLEAN", "INTEGER (0..7)", "INTEGER", "ENUMERATED { ea, eb }", "NULL", "BIT STRING (SIZE(0..9))", "OCTET STRING",
+                  "UTF8String", "IA5String (SIZE(0..4))", "NumericString", "PrintableString", "VisibleString",
+                  "SEQUENCE OF BOOLEAN", "SET OF INTEGER (0..3)", "CHOICE { ca BOOLEAN, cb NULL }", "SEQUENCE { z BOOLEAN }",
+                  "INTEGER (0..7,...)", "NumericString (SIZE(0..3,...))"]
+    for i, k in enumerate(root_kinds):
+        d.append(f"RootK{i} ::= SEQUENCE {{ x {k}, ..., y INTEGER (0..255) OPTIONAL, w BOOLEAN OPTIONAL }}")
+        d.append(f"RootS{i} ::= SET {{ x {k}, ..., y INTEGER (0..255) OPTIONAL }}")
+    # string DEFAULTs whose words are more than one blank apart (the parser rebuilds the literal from token columns)
+    d.append("DefSp ::= SEQUENCE { a BOOLEAN, t UTF8String DEFAULT \"ID:  none\", ..., u IA5String (SIZE(0..8)) DEFAULT \"km   h\", p PrintableString DEFAULT \"a  b c\" }")
     # an OPTIONAL SEQUENCE whose own components are OPTIONAL (ProtobufEq of two present values is not `==`)
     d.append("Inner2 ::= SEQUENCE { n INTEGER (0..255) OPTIONAL, l SEQUENCE OF INTEGER (0..255) OPTIONAL }")
     d.append("Outer2 ::= SEQUENCE { inner Inner2 OPTIONAL, tail INTEGER (0..255) }")
@@ -214,6 +225,17 @@ def versions():
     # more than 64 additions on the sender's side
     d.append("WideV1 ::= SEQUENCE { r BOOLEAN, ..., " + ", ".join(f"e{i:02d} INTEGER (0..3) OPTIONAL" for i in range(64)) + " }")
     d.append("WideV2 ::= SEQUENCE { r BOOLEAN, ..., " + ", ".join(f"e{i:02d} INTEGER (0..3) OPTIONAL" for i in range(66)) + " }")
+    # additions that are not marked OPTIONAL / DEFAULT (the generator makes them optional), a NULL among them
+    d.append("NulV1 ::= SEQUENCE { r INTEGER (0..15), ..., b INTEGER (0..255) OPTIONAL }")
+    d.append("NulV2 ::= SEQUENCE { r INTEGER (0..15), ..., b INTEGER (0..255) OPTIONAL, n NULL }")
+    d.append("NulV3 ::= SEQUENCE { r INTEGER (0..15), ..., b INTEGER (0..255) OPTIONAL, n NULL, m BOOLEAN, s IA5String (SIZE(0..3)) }")
+    d.append("NulWrapV1 ::= SEQUENCE { m NulV1, tail INTEGER (0..255) }")
+    d.append("NulWrapV2 ::= SEQUENCE { m NulV2, tail INTEGER (0..255) }")
+    d.append("NulWrapV3 ::= SEQUENCE { m NulV3, tail INTEGER (0..255) }")
+    # every item numbered; the added value's number lies between those of two root items
+    d.append("EnuNumV1 ::= ENUMERATED { low(10), high(20), top(30), ... }")
+    d.append("EnuNumV2 ::= ENUMERATED { low(10), high(20), top(30), ..., mid(15) }")
+    d.append("EnuNumV3 ::= ENUMERATED { low(10), high(20), top(30), ..., mid(15), bottom(1) }")
     d.append("SelV1 ::= CHOICE { code [5] INTEGER (0..255), ... }")
     d.append("SelV2 ::= CHOICE { code [5] INTEGER (0..255), ..., label [1] UTF8String (SIZE(0..5)) }")
     d.append("HoldV1 ::= SET { selector SelV1, level [3] INTEGER (0..255) }")
@@ -234,10 +256,17 @@ def importing():
     return module("ZooImp", "\n".join(d), imports="IMPORTS Color, ColorX, IntU8, IntI8, IntU16, IntNib FROM ZooLeaf;")
 
 
+def importing_choice_only():
+    """every imported symbol is used as a CHOICE alternative only (a dispatcher module)"""
+    d = ["Dispatch ::= CHOICE { colour Color, level IntU8, wide IntU16 }"]
+    return module("ZooImc", "\n".join(d), imports="IMPORTS Color, IntU8, IntU16 FROM ZooLeaf;")
+
+
 def main():
     os.makedirs(OUT, exist_ok=True)
     files = {"zoo_leaf.asn1": leaf(), "zoo_shape.asn1": shapes(), "zoo_nested.asn1": nested(),
-             "zoo_set.asn1": sets(), "zoo_ver.asn1": versions(), "zoo_imp.asn1": importing()}
+             "zoo_set.asn1": sets(), "zoo_ver.asn1": versions(), "zoo_imp.asn1": importing(),
+             "zoo_imc.asn1": importing_choice_only()}
     for n, t in files.items():
         with open(os.path.join(OUT, n), "w") as f:
             f.write(t)
